@@ -254,7 +254,9 @@ Definition hf_prefix (o : oracle) (c : gcfg) (n : nd) (P : N) : hash_fn :=
 Definition group_by_prefix (o : oracle) (c : gcfg) (n : nd) (P : N) (gs : list group) : list group :=
   rehash n StPrefix pre_multi (matches c) (hf_prefix o c n P) (map sort_group_by_id gs).
 
-Definition pre_suffix (thr : N) (g : group) : bool := (thr <=? glen g) && pre_multi g.
+(* the suffix stage is skipped when the suffix would cover the whole file (f4a00ae): its hash could equal the
+   prefix hash computed over the same bytes and the XOR would cancel *)
+Definition pre_suffix (thr S : N) (g : group) : bool := (thr <=? glen g) && (S <? glen g) && pre_multi g.
 Definition hf_suffix (o : oracle) (n : nd) (S : N) : hash_fn :=
   fun f old =>
     let s := N.min S (flen f) in
@@ -266,7 +268,8 @@ Definition suffix_threshold_of (c : gcfg) (gs : list group) : N :=
 
 Definition group_by_suffix (o : oracle) (c : gcfg) (n : nd) (gs : list group) : list group :=
   let gs := map sort_group_by_id gs in
-  rehash n StSuffix (pre_suffix (suffix_threshold_of c gs)) (matches c) (hf_suffix o n (suffix_len_of c gs)) gs.
+  rehash n StSuffix (pre_suffix (suffix_threshold_of c gs) (suffix_len_of c gs)) (matches c)
+    (hf_suffix o n (suffix_len_of c gs)) gs.
 
 Definition pre_contents (P : N) (g : group) : bool := pre_multi g && (P <=? glen g).
 Definition hf_contents (o : oracle) (n : nd) : hash_fn :=
@@ -280,7 +283,7 @@ Definition hf_transform (o : oracle) (n : nd) : hash_fn :=
              else option_map (fun lh : N * hash => (snd lh, fst lh)) (o_trans o f).
 
 Definition group_transformed (o : oracle) (c : gcfg) (n : nd) (fs : list file) : list group :=
-  rehash n StTransform (fun _ => true) (matches c) (hf_transform o n) [mkgroup 0 hash0 (sort_by_id fs)].
+  rehash n StTransform (fun _ => true) (matches_strictly c) (hf_transform o n) [mkgroup 0 hash0 (sort_by_id fs)].
 
 (* final ordering: par_sort_by_key(Reverse((len, u128_prefix))) (stable), then sort_by_path *)
 Definition final_before (a b : group) : bool :=
